@@ -87,9 +87,21 @@ class FakeProc:
             self._waiters.append(fut)
         return fut
 
-    async def communicate(self, input=None):
-        await self._wait_fut()
-        return self._out, self._err
+    def communicate(self, input=None):
+        # a future, not a coroutine: callers that drop it (wait_for raising early) leave nothing un-awaited
+        res = self.loop.create_future()
+        w = self._wait_fut()
+
+        def done(f):
+            if not res.done():
+                if f.cancelled():
+                    res.cancel()
+                else:
+                    res.set_result((self._out, self._err))
+
+        w.add_done_callback(done)
+        res.add_done_callback(lambda r: (w.cancel() if r.cancelled() and not w.done() else None))
+        return res
 
     async def wait(self):
         await self._wait_fut()
